@@ -189,6 +189,39 @@ fn find_bind_borrow''', ['C09']),
     ('gen_any_to_direct_none', GW, '''Ok(SelectEntity::#Archetype(entity)) =>
                                 self.#archetype.to_direct(entity).map(|e| e.into()),''', '''Ok(SelectEntity::#Archetype(entity)) =>
                                 None,''', ['C09']),
+    ('emit_single_match_rejected', 'macros/src/generate/query.rs', '''    if queries.is_empty() {
+        Err(syn::Error::new_spanned(
+            world,
+            "query matched no archetypes in world",
+        ))
+    } else {
+        Ok(quote!(
+            // Use a closure so we can use return to cancel other archetype iterations
+            (||{#(#queries)*})()
+        ))
+    }
+}
+
+#[allow(non_snake_case)]
+pub fn generate_query_iter_destroy(''', '''    if queries.len() <= 1 {
+        Err(syn::Error::new_spanned(
+            world,
+            "query matched no archetypes in world",
+        ))
+    } else {
+        Ok(quote!(
+            // Use a closure so we can use return to cancel other archetype iterations
+            (||{#(#queries)*})()
+        ))
+    }
+}
+
+#[allow(non_snake_case)]
+pub fn generate_query_iter_destroy(''', ['C05']),
+    ('emit_skips_archetype_id_zero', 'macros/src/generate/query.rs', '''            let Archetype = format_ident!("{}", archetype.name);
+            let ArchetypeDirect = format_ident!("{}Direct", archetype.name);''', '''            if archetype.id == 0 { continue; }
+            let Archetype = format_ident!("{}", archetype.name);
+            let ArchetypeDirect = format_ident!("{}Direct", archetype.name);''', ['C05']),
     ('gen_event_iter_skips_archetype', GW, 'next.push(quote!(self.which += 1));', 'next.push(quote!(self.which += 2));', ['C17']),
     ('gen_iter_destroyed_lists_created', GW, '#(#iter: self.#archetype.data.destroyed().iter(),)*', '#(#iter: self.#archetype.data.created().iter(),)*', ['C17']),
     ('gen_iter_created_starts_at_second', GW, '''            fn iter_created(&self) -> impl Iterator<Item = &EntityAny> {
